@@ -1228,6 +1228,10 @@ class Interp:
 
     def binop(self, op, lv, rv, n):
         ctx = self.ctx
+        if getattr(lv, "custom_binop", False):
+            return lv.binop(self, op, rv)
+        if getattr(rv, "custom_binop", False):
+            return rv.rbinop(self, op, lv)
         if isinstance(lv, Ptr) or isinstance(rv, Ptr):
             # pointers modelled as integer ids (0 = nullptr) compared with the nullptr literal
             for a_, b_ in ((lv, rv), (rv, lv)):
@@ -1294,6 +1298,16 @@ class Interp:
                            z3.If(z3.And(a >= 0, b < 0), -(a / (-b)), (-a) / (-b))))
 
     def cmod(self, a, b):
+        if getattr(self.k, "mod_wrap", False) and not self.ctx.pure_depth:
+            # ring-buffer index arithmetic: when the path condition implies 0 <= a < 2b the remainder is a
+            # conditional subtraction (an equivalent linear form the solver can reason about)
+            sv = self.ctx.solver
+            sv.push()
+            sv.add(z3.Not(z3.And(a >= 0, b > 0, a < 2 * b)))
+            r = sv.check()
+            sv.pop()
+            if r == z3.unsat:
+                return z3.If(a < b, a, a - b)
         return a - self.cdiv(a, b) * b
 
     def ptr_eq(self, a, b):
